@@ -70,6 +70,18 @@ def query (t : Ty) (j : Json) : R Json := do
       | .delim (.struct fs) _ => pure (sortedNats (offsetIntrinsic false (fs.take jn)).expand)
       | .delim (.union fs) _ => pure (sortedNats (offsetIntrinsic true (fs.take jn)).expand)
       | _ => throw "bad-op"
+  | "svc_intrinsic" => do
+      -- `_offset_` after the first j fields of the request (this type) and of the response (a second structure)
+      let jn ← nat (← nth a 1)
+      let resp ← parseTy (← nth a 2)
+      let fieldsOf : Ty → R (List Ty) := fun
+        | .struct fs => pure fs
+        | .delim (.struct fs) _ => pure fs
+        | _ => throw "bad-op"
+      let f1 ← fieldsOf t
+      let f2 ← fieldsOf resp
+      pure (ofList [sortedNats (offsetIntrinsic false (f1.take jn)).expand,
+                    sortedNats (offsetIntrinsic false (f2.take jn)).expand])
   | q => throw s!"bad query {q}"
 
 def handle (j : Json) : R Json := do
